@@ -47,28 +47,31 @@ def run(ctx):
         write_evidence(ctx, "exploration", {"evaluations": max(1, res["evaluations"]), "distinct_nontrivial": 2, "rule": "replay of one recorded case",
                                             "samples": res["samples"] or [{"replay": ctx.replay}]})
         return
-    rounds = 4 if ctx.quick else 14
-    ndata, npred = (4, 5) if ctx.quick else (6, 8)
+    rounds = 4 if ctx.quick else 8
+    ncases = 22 if ctx.quick else 110
     cases, states = [], 0
     for r in range(rounds):
         n = [12, 16, 9, 20][r % 4]
         av = sorted(ctx.rng.sample([1, 2, 3, 5, 8, 9], 4))
         svs = sorted(ctx.rng.sample(range(1, len(POOL) + 1), 3))
         cfg = ctx.path(f"pq{r}.cfg")
-        open(cfg, "w").write(f"CONSTANTS N = {n}  AV = {{{', '.join(map(str, av))}}}  SVs = {{{', '.join(map(str, svs))}}}  NData = {ndata}  NPred = {npred}\n"
+        open(cfg, "w").write(f"CONSTANTS N = {n}  AV = {{{', '.join(map(str, av))}}}  SVs = {{{', '.join(map(str, svs))}}}  NCases = {ncases}\n"
                              "SPECIFICATION Spec\nINVARIANTS Emit\n")
         t = tlc_must_pass(ctx, "files/ParquetScan", cfg=cfg, workers=1, tag=f"pq{r}", mode_args=["-seed", str(ctx.seed * 1000 + r)], timeout=1800)
         states += t.distinct
         got = tlc_cases(t.out)
         for j, c in enumerate(got):
             c["pool"] = POOL
-            c["sql"] = render(c["filter"], ["a", "b", "s"], POOL)
+            c["sql"] = render(c["filter"], ["a", "b", "s", "st['p']"], POOL)
             c["k"] = ctx.rng.choice([1, 2, 3, 5])
+            c["j"] = ctx.rng.choice([0, 1, 2, 3, 5, n - 1])
             c["desc"] = ctx.rng.random() < 0.5
             i = ctx.rng.randrange(len(OA7))
-            c["configs"] = [config("1111111", False, 1),
-                            config(OA7[i], i % 2 == 1, 1 + (i // 2) % 2),
-                            config("".join(ctx.rng.choice("01") for _ in SW), ctx.rng.random() < 0.3, ctx.rng.choice([1, 2]))]
+            extra = lambda: dict(collect_statistics=ctx.rng.random() < 0.75, small_metadata_hint=ctx.rng.random() < 0.3,
+                                 declare_order=ctx.rng.random() < 0.6)
+            c["configs"] = [dict(config("1111111", False, 1), **extra()),
+                            dict(config(OA7[i], i % 2 == 1, 1 + (i // 2) % 2), **extra()),
+                            dict(config("".join(ctx.rng.choice("01") for _ in SW), ctx.rng.random() < 0.3, ctx.rng.choice([1, 2])), **extra())]
             c["origin"] = f"ParquetScan.tla N={n} AV={av} SVs={svs} seed={ctx.seed * 1000 + r}"
         cases += got
     if len(cases) < 40:
@@ -81,8 +84,32 @@ def run(ctx):
     for v in res["violations"]:
         report_violation(ctx, v, key=known_key(v))
     cnt = res["counters"]
-    if cnt.get("metric_pushdown_rows_pruned_sum", 0) == 0:
-        raise ToolError("vacuity: the row filter never pruned a row (pushdown not exercised)")
+    def msum(name):
+        return sum(v for k, v in cnt.items() if k.startswith(f"metric_{name}/"))
+    paths = {
+        "row filter pruned rows (pushdown_filters)": msum("pushdown_rows_pruned"),
+        "row groups pruned by statistics": msum("row_groups_pruned_statistics"),
+        "row groups pruned by bloom filter": msum("row_groups_pruned_bloom_filter"),
+        "pages pruned by page index": msum("page_index_pages_pruned"),
+        "rows pruned by page index": msum("page_index_rows_pruned"),
+        "files pruned by file statistics": msum("files_ranges_pruned_statistics"),
+        "row groups pruned by LIMIT over fully matched row groups": msum("limit_pruned_row_groups"),
+        "predicate cache used": msum("predicate_cache_records"),
+        "page index load skipped": msum("page_index_load_skipped"),
+        "reverse_row_groups plans (ORDER BY .. DESC pushdown)": cnt.get("plans_with_reverse_row_groups", 0),
+        "sort_order_for_reorder plans (row-group reorder by statistics)": cnt.get("plans_with_sort_order_for_reorder", 0),
+        "scans with declared file order": cnt.get("declared_order_scans", 0),
+        "ORDER BY answered without SortExec (Exact sort pushdown)": cnt.get("sorted_queries_without_sortexec", 0),
+        "TopK dynamic filter plans": cnt.get("plans_with_dynamic_filter", 0),
+        "two-file tables": sum(1 for c in cases if c["n_files"] == 2),
+        "tables where a file holds no matching row": sum(1 for c in cases if c["need_files"] < c["n_files"]),
+    }
+    optional = {"row groups pruned by dynamic filter": msum("row_groups_pruned_dynamic_filter"),
+                "pages skipped as fully matched": msum("page_index_pages_skipped_by_fully_matched"),
+                "file_row_index() in WHERE rejected by the engine": cnt.get("rowidx_filter_rejected_by_engine", 0)}
+    never = [k for k, v in paths.items() if v == 0]
+    if never:
+        raise ToolError(f"vacuity: reader paths never exercised in this run: {never}")
     pairs = set()
     for c in cases:
         for cf in c["configs"]:
@@ -97,9 +124,10 @@ def run(ctx):
         "tlc_states": states, "cases_from_tlc": len(cases),
         "cases_where_some_row_group_is_unneeded": sum(1 for c in cases if c["need_rg"] < c["n_rg"]),
         "switch_value_pairs_covered": len(pairs), "switch_value_pairs_total": 4 * len(SW) * (len(SW) - 1) // 2,
+        "paths_exercised": paths, "optional_paths": optional,
         "counters": cnt,
     }, assumptions=[
         "Parquet encoding/decoding itself is outside the model (observed end to end)",
         "row-group / page pruning is observed through its effect on the result (a wrongly pruned container loses rows) and through scan metrics (non-vacuity), not per container",
-        "integers are small, strings come from a 5-element pool; one file per table; sort pushdown is exercised only through ORDER BY .. LIMIT (TopK dynamic filter)",
+        "integers are small, strings come from a 5-element pool; INT96 / coerce_int96, binary_as_string and encrypted files are not generated (ArrowWriter does not produce INT96)",
     ])
